@@ -115,6 +115,8 @@ def gen_case(draw):
         c["nogo"].append({"cx": draw(st.floats(0.25, 0.75)), "cy": draw(st.floats(0.25, 0.75)), "r": draw(st.floats(0.05, 0.2)),
                           "n": draw(st.integers(3, 6)), "a0": draw(st.floats(0.0, 6.28))})
     c["shift"] = [draw(st.sampled_from([0.0, 10.0, 37.5, 100.0])), draw(st.sampled_from([0.0, 10.0, 37.5, 100.0]))]
+    # whole-number coordinates typed without a decimal point arrive as Python ints (JSON "60" vs "60.0")
+    c["int_coords"] = draw(st.integers(0, 5)) == 0
     return c
 
 
@@ -237,6 +239,10 @@ def _order_dependent(case, poly, nogo, s, rot, per):
 
 def check_gen(case, rec):
     poly = [list(map(float, v)) for v in case["poly"]]
+    ipoly = None
+    if case.get("int_coords"):
+        ipoly = [[int(round(v[0])), int(round(v[1]))] for v in poly]
+        poly = [[float(a), float(b)] for a, b in ipoly]
     s = case["s"]
     if not gg.is_convex_float(poly) or not og.is_simple([og._F(v) for v in poly]) or min_width(poly) < 1.3 * s:
         rec.cls("outline_rejected(skipped)")
@@ -246,8 +252,15 @@ def check_gen(case, rec):
     per = case.get("perimeter")
     feats = features(case, nogo)
     try:
-        pts, used = guarded(_generate, case, poly, nogo, s, rot, per, what="rowwise generation")
+        pts, used = guarded(_generate, case, ipoly if ipoly is not None else poly, nogo, s, rot, per, what="rowwise generation")
         _gen_oracles(case, rec, poly, nogo, s, rot, per, pts, used)
+        if ipoly is not None:
+            # the same outline typed as floats must give the same field
+            pts_f, _ = guarded(_generate, case, poly, nogo, s, rot, per, what="rowwise generation (float-typed outline)")
+            if len(pts_f) != len(pts) or (len(pts) and float(cKDTree(pts_f).query(pts, k=1)[0].max()) > 1e-6):
+                raise Violation(f"the field depends on the number type of the outline: {len(pts)} boreholes for int coordinates, "
+                                f"{len(pts_f)} for the same values as floats (or positions differ)", sig={"kind": "number_type_dependent"})
+            rec.cls("int_typed_outline")
     except Violation as v:
         v.sig.update(feats)
         if nogo:
